@@ -145,9 +145,23 @@ def _exec(op, kv):
         return C.show_segs(f.getSegments(C.parse_items(kv.get("X", ""), P), Peak(int(kv["peak"]), 1.0)))
     if op == "CANDIDATE":
         P = params(kv)
-        al = make_aligner(P, frac(kv["mult"]), int(kv["var"]), int(kv["it"]))
-        peaks = [Peak(p, 1.0) for p in ints(kv.get("peaks", ""))]
+        den = int(kv.get("den", "1"))
+        mult = frac(kv["mult"])
+        if den != 1:
+            # the line carries scores scaled by `den`; the real classes get the unscaled exact fractions (scores that are
+            # not multiples of 0.1, 0.5 or 1), and the reported confidence is scaled back
+            P = dict(P, sp=Fraction(P["sp"], den), dp=Fraction(P["dp"], den), su=Fraction(P["su"], den),
+                     ms=Fraction(P["ms"], den), bs=Fraction(P["bs"], den))
+            mult = mult / den
+        al = make_aligner(P, mult, int(kv["var"]), int(kv["it"]))
+        # only the POSITION of a secondary peak may matter to the aligner: heights / bases / scores are made different
+        # from peak to peak (deterministically), so a dependence on them shows up as a disagreement with the model
+        peaks = [Peak(p, float(10 + (p * 7919 + i * 104729) % 97), p - 50 * (i % 3), p + 50 * (i % 5), float((p * 31 + i) % 89))
+                 for i, p in enumerate(ints(kv.get("peaks", "")))]
         row = al.align(C.parse_map(kv["REF"]), C.parse_map(kv["QRY"]), peaks, kv["rev"] == "1")
+        if den != 1:
+            c = Fraction(row.confidence) * den
+            row.confidence = c.numerator if c.denominator == 1 else c
         return C.show_row(row) + " cigar=" + row.cigarString
     if op == "CIGAR":
         return cigar_row(bpairs(kv.get("P", ""))).cigarString
